@@ -14,7 +14,7 @@ Record bsh := { bmap : N -> option nat;     (* buckets[key] *)
                 hkey : nat -> N;            (* heap: key a bucket was created for *)
                 htok : nat -> Z;            (* heap: tokens *)
                 next : nat;                 (* number of buckets ever created *)
-                adm : N -> Z }.             (* tokens admitted per key *)
+                adm : N -> Z }.             (* tokens granted per key *)
 
 Inductive blo :=
 | A0 (k : N) (n : Z)                       (* about to look the key up *)
